@@ -1,0 +1,25 @@
+//go:build verif
+
+package conn
+
+// Contracts checked by /verif/govc (see /verif/DESIGN.md). Comment-only file.
+
+// Dispatch on the first two bytes never panics, whatever the bytes are (C04).
+//@ func (c *Conn) Read
+//@   opt safety-tag=C04
+//@   modifies fields(c), all(bufio.Reader), all(byte), all(string), all(base.InterleavedFrame), fresh
+
+//@ func (c *Conn) ReadInterleavedFrame
+//@   opt safety-tag=C04
+//@   ensures[C04] ret != nil && (err == nil ==> 0 <= ret.Channel && ret.Channel <= 255 && len(ret.Payload) <= 65535)
+//@   modifies fields(c), all(bufio.Reader), all(byte), all(base.InterleavedFrame), fresh
+
+//@ func (c *Conn) ReadRequest
+//@   opt safety-tag=C04
+//@   ensures[C04] ret != nil
+//@   modifies all(bufio.Reader), all(byte), all(string), fresh
+
+//@ func (c *Conn) ReadResponse
+//@   opt safety-tag=C04
+//@   ensures[C04] ret != nil
+//@   modifies all(bufio.Reader), all(byte), all(string), fresh
